@@ -14,8 +14,8 @@ from crosshair.tracers import NoTracing
 
 from . import models
 
-_DEC_PH = ["7", "8", "6", "9"]
-_HEX_PH = ["e", "d", "c", "b"]   # every hex placeholder contains a lower-case letter, so it can never equal
+_DEC_PH = ["7", "8", "6", "9", "5", "4", "3", "2", "1"]
+_HEX_PH = ["e", "d", "c", "b", "a", "f"]   # every hex placeholder contains a lower-case letter, so it can never equal
 #                                  an upper-case rendering ("{:X}") parsed back by high_byte/low_byte/get_binary_array
 
 
